@@ -10,11 +10,16 @@
      law's sum is a finite point.  Finding F12 (known): the harness reproduces it on the real gadget for
      secp256k1, BN254, BLS12-381 and through the EVM ECAdd gadget.
 
-   Everything else (scalar multiplications and their GLV / fake-GLV hints, twisted Edwards, ECDSA,
+   Twisted Edwards (Std/Edwards.v, any field, curve a x^2 + y^2 = 1 + d x^2 y^2):
+   - C16_ed_add_law: the gadget's addition (4-multiplication form) is the unified addition law whenever its
+     two denominators are non-zero;  C16_ed_double_law: on the curve, the dedicated doubling equals the
+     unified law applied to (P, P);  C16_ed_add_identity, C16_ed_add_neg: P + (0,1) = P, P + (-P) = (0,1).
+
+   Everything else (scalar multiplications and their GLV / fake-GLV hints, ECDSA, EdDSA,
    pairings, EVM conventions) is decided by differential runs against an independent big-integer
    group law cross-checked with crypto/elliptic, crypto/ecdsa and gnark-crypto. *)
 From Coq Require Import Field List.
-From GnarkV Require Import Std.Weierstrass.
+From GnarkV Require Import Std.Weierstrass Std.Edwards.
 
 Section C16.
 Variable F : Type.
@@ -24,7 +29,7 @@ Hypothesis eq_dec : forall x y : F, {x = y} + {x <> y}.
 Variables a b : F.
 Hypothesis b_nz : b <> zero.
 Infix "+" := add. Infix "*" := mul. Infix "-" := sub.
-Notation on_curve := (on_curve F add mul a b).
+Notation on_curve := (Weierstrass.on_curve F add mul a b).
 Notation add_unified := (add_unified F zero one add mul sub div eq_dec a).
 Notation padd := (padd F zero one add mul sub div eq_dec a).
 
@@ -49,8 +54,42 @@ Theorem C16_add_unified_exception_refuted : forall x y zeta,
 Proof. exact (add_unified_exception_refuted F zero one add mul sub opp div inv Fth eq_dec a b). Qed.
 End C16.
 
+Section C16Edwards.
+Variable F : Type.
+Variables (zero one : F) (add mul sub : F -> F -> F) (opp : F -> F) (div : F -> F -> F) (inv : F -> F).
+Hypothesis Fth : field_theory zero one add mul sub opp div inv (@eq F).
+Variables a d : F.
+Infix "+" := add. Infix "*" := mul. Infix "-" := sub.
+Notation ed_add := (ed_add F one add mul sub div a d).
+Notation ed_double := (ed_double F one add mul sub div a).
+Notation ed_on := (Edwards.on_curve F one add mul a d).
+
+Theorem C16_ed_add_law : forall x1 y1 x2 y2,
+  one + d * x1 * x2 * y1 * y2 <> zero -> one - d * x1 * x2 * y1 * y2 <> zero ->
+  ed_add (x1, y1) (x2, y2) =
+  (div (x1 * y2 + x2 * y1) (one + d * x1 * x2 * y1 * y2), div (y1 * y2 - a * x1 * x2) (one - d * x1 * x2 * y1 * y2)).
+Proof. exact (ed_add_law F zero one add mul sub opp div inv Fth a d). Qed.
+
+Theorem C16_ed_double_law : forall x y,
+  ed_on (x, y) -> one + d * x * x * y * y <> zero -> one - d * x * x * y * y <> zero ->
+  ed_double (x, y) = (div (x * y + x * y) (one + d * x * x * y * y), div (y * y - a * x * x) (one - d * x * x * y * y)).
+Proof. exact (ed_double_law F zero one add mul sub opp div inv Fth a d). Qed.
+
+Theorem C16_ed_add_identity : forall x y, ed_add (x, y) (zero, one) = (x, y).
+Proof. exact (ed_add_identity F zero one add mul sub opp div inv Fth a d). Qed.
+
+Theorem C16_ed_add_neg : forall x y,
+  ed_on (x, y) -> one + d * x * (zero - x) * y * y <> zero -> one - d * x * (zero - x) * y * y <> zero ->
+  ed_add (x, y) (ed_neg F zero sub (x, y)) = (zero, one).
+Proof. exact (ed_add_neg F zero one add mul sub opp div inv Fth a d). Qed.
+End C16Edwards.
+
 Print Assumptions C16_add_unified_finite.
 Print Assumptions C16_add_unified_inf_l.
 Print Assumptions C16_add_unified_inf_r.
 Print Assumptions C16_add_unified_inf_inf.
 Print Assumptions C16_add_unified_exception_refuted.
+Print Assumptions C16_ed_add_law.
+Print Assumptions C16_ed_double_law.
+Print Assumptions C16_ed_add_identity.
+Print Assumptions C16_ed_add_neg.
